@@ -34,6 +34,66 @@ pub fn check_scenario(s: &Scenario, src: &mut Src, rebuilds: usize) -> Verdict {
     };
     let want = expected(s);
     // (1) model
+    if let Err(v) = check_against(&first, &want, s) {
+        return v;
+    }
+    // (2) determinism across registration orders and hash seeds (every HashMap in every fresh
+    // registry has its own RandomState)
+    for r in 0..rebuilds {
+        let order = src.perm(n);
+        let (again, text) = match gathered(s, &order) {
+            Ok(x) => x,
+            Err(e) => return fail("valid-scenario-rejected", format!("order {:?}: {} ;; {}", order, e, describe(s))),
+        };
+        ensure!(
+            crate::neutral::families_same(&first, &again, false),
+            "gather-not-deterministic",
+            "rebuild {} with registration order {:?} gathered {} but the first build gathered {} ;; {}",
+            r, order, show_families(&again), show_families(&first), describe(s)
+        );
+        ensure!(text == text0, "text-not-deterministic", "rebuild {} order {:?}: {:?} vs {:?}", r, order, text, text0);
+    }
+    Verdict::Pass
+}
+
+/// A registry that has been gathered is changed through second handles to its metrics (vectors reset and refilled, emptied, one child
+/// removed or added; gauges set again) and gathered again, 1-3 times: every gather shows exactly the state of its moment.
+pub fn check_epochs(s: &Scenario, src: &mut Src, rep: &mut Report) -> Verdict {
+    let ident: Vec<usize> = (0..s.colls.len()).collect();
+    let (reg, handles) = match crate::scenario::build_h(s, &ident) {
+        Ok(x) => x,
+        Err(e) => return fail("valid-scenario-rejected", format!("{} ;; {}", e, describe(s))),
+    };
+    if let Err(v) = check_against(&neutral_all(&reg.gather()), &expected(s), s) {
+        return v;
+    }
+    let mut cur = s.clone();
+    let mut changes: Vec<String> = vec![];
+    for epoch in 0..1 + src.below(3) {
+        let (next, log) = crate::scenario::mutate(src, &cur, &handles);
+        changes.extend(log.iter().map(|l| format!("epoch {}: {}", epoch + 1, l)));
+        cur = next;
+        if let Err(v) = check_against(&neutral_all(&reg.gather()), &expected(&cur), &cur) {
+            return match v {
+                Verdict::Fail { sig, detail } => Verdict::Fail { sig, detail: format!("after changes to a registry that had been gathered before [{}]: {}", changes.join("; "), detail) },
+                v => v,
+            };
+        }
+    }
+    if !changes.is_empty() {
+        rep.class("changed-and-gathered-again");
+    }
+    Verdict::Pass
+}
+
+fn check_against(first: &[NFamily], want: &[NFamily], s: &Scenario) -> Result<(), Verdict> {
+    macro_rules! ensure {
+        ($c:expr, $sig:expr, $($arg:tt)*) => {
+            if !$c {
+                return Err(fail($sig, format!($($arg)*)));
+            }
+        };
+    }
     ensure!(
         first.len() == want.len(),
         "family-count-differs",
@@ -43,7 +103,7 @@ pub fn check_scenario(s: &Scenario, src: &mut Src, rebuilds: usize) -> Verdict {
     for w in first.windows(2) {
         ensure!(w[0].name < w[1].name, "families-not-strictly-increasing", "{:?} then {:?} ;; {}", w[0].name, w[1].name, describe(s));
     }
-    for (g, w) in first.iter().zip(&want) {
+    for (g, w) in first.iter().zip(want) {
         ensure!(g.name == w.name, "family-name-differs", "got {:?} want {:?} ;; {}", g.name, w.name, describe(s));
         ensure!(g.help == w.help, "family-help-differs", "{}: got {:?} want {:?}", g.name, g.help, w.help);
         ensure!(g.ty == w.ty, "family-type-differs", "{}: got {:?} want {:?} ;; {}", g.name, g.ty, w.ty, describe(s));
@@ -71,23 +131,7 @@ pub fn check_scenario(s: &Scenario, src: &mut Src, rebuilds: usize) -> Verdict {
             );
         }
     }
-    // (2) determinism across registration orders and hash seeds (every HashMap in every fresh
-    // registry has its own RandomState)
-    for r in 0..rebuilds {
-        let order = src.perm(n);
-        let (again, text) = match gathered(s, &order) {
-            Ok(x) => x,
-            Err(e) => return fail("valid-scenario-rejected", format!("order {:?}: {} ;; {}", order, e, describe(s))),
-        };
-        ensure!(
-            crate::neutral::families_same(&first, &again, false),
-            "gather-not-deterministic",
-            "rebuild {} with registration order {:?} gathered {} but the first build gathered {} ;; {}",
-            r, order, show_families(&again), show_families(&first), describe(s)
-        );
-        ensure!(text == text0, "text-not-deterministic", "rebuild {} order {:?}: {:?} vs {:?}", r, order, text, text0);
-    }
-    Verdict::Pass
+    Ok(())
 }
 
 impl Property for C07 {
@@ -101,7 +145,8 @@ impl Property for C07 {
          collector whose collect() order is unrelated to its desc() order; label values from the adversarial fragment pool; registry with no/one of \
          two prefixes and 0-4 common labels; 5 further rebuilds in fresh registries under generated registration permutations (each \
          HashMap gets a fresh RandomState). Oracle: model of the prescribed result (names strictly increasing, every sample exactly \
-         once, lexicographic by label values, help, type, prefix, common labels) + all rebuilds and their text encodings identical. \
+         once, lexicographic by label values, help, type, prefix, common labels) + all rebuilds and their text encodings identical; a third of the cases then change the gathered registry through second handles (vectors reset and refilled with the same tuples, \
+         emptied, one child removed or added; gauges set again) 1-3 times and compare every further gather with the model of its moment. \
          Non-trivial: >=2 collectors share a name, or a vector has >=3 children, or >=2 common labels. Distinct = decoded choices."
     }
     fn assumptions(&self) -> Vec<&'static str> {
@@ -149,7 +194,15 @@ impl Property for C07 {
         if rep.want_sample {
             rep.sample = Some(describe(&s));
         }
-        check_scenario(&s, src, 5)
+        match check_scenario(&s, src, 5) {
+            Verdict::Pass => {}
+            v => return v,
+        }
+        // a third of the cases go on: the registry is changed after a gather and gathered again
+        if src.chance(85) {
+            return check_epochs(&s, src, rep);
+        }
+        Verdict::Pass
     }
 
     fn post(&self, tier: Tier, seed: u64, stats: &mut Stats) -> Result<(), (String, String, Vec<u8>)> {
